@@ -20,7 +20,7 @@ def gen_cases(tier, seed):
     for level in range(0, 0x80):
         odd = level if level % 2 == 1 else level - 1
         even = odd + 1
-        for algo in (0, 1, 2, 3, 4):
+        for algo in (0, 1, 2, 3, 4, 5, 6):
             if tier == 'quick' and algo in (0, 4) and level not in (1, 2, 0x7D, 0x7E, 0, 0x7F):
                 continue
             for ex in (1, 0):
@@ -95,10 +95,10 @@ def oracle(c, r):
     if aseed != seed or lvl not in (-1, level):
         return ('algo-args', 'algorithm got seed %s level %r; received seed %s requested level %d' % (aseed.hex(), lvl, seed.hex(), level))
     kind = cfgv[cl.ALGO]
-    if kind >= 2 and prm != cfgv[cl.ALGO_PRM]:
+    if kind in (2, 3, 4, 5) and prm != cfgv[cl.ALGO_PRM]:
         return ('algo-params', 'algorithm got params %r, configured security_algo_params is %r (-1 = None)' % (prm, cfgv[cl.ALGO_PRM]))
     pb = 0 if cfgv[cl.ALGO_PRM] < 0 else cfgv[cl.ALGO_PRM] & 0xFF
-    key = bytes(reversed(seed)) + (b'' if kind == 1 else (bytes([pb]) if kind == 2 else bytes([level & 0xFF, pb])))
+    key = bytes(reversed(seed)) + (b'' if kind in (1, 6) else (bytes([pb]) if kind in (2, 5) else bytes([level & 0xFF, pb])))
     if len(sent) != 2 or sent[1] != bytes([0x27, 2 * k]) + key:
         return ('key-frame', 'frames after the seed request: %r, expected 27 %02x %s' % ([s.hex() for s in sent[1:]], 2 * k, key.hex()))
     return None
